@@ -273,25 +273,30 @@ def childEntries (c : DirCfg) (dirSel base : Str) : List Child → Option (List 
     | some none, some es => some es
     | _, _ => none
 
+/-- a link block hides its target: `Type=X` or `Type=-` -/
+def LinkEntry.hides (l : LinkEntry) : Bool := l.e.type == some (lit "X") || l.e.type == some (lit "-")
+
 /-- `MergeLinkFiles` over entries tagged with their original index; the dict maps the
     *original* selector to the *last* entry carrying it -/
 def mergeLinks : List LinkEntry → List (Nat × Str × Option Entry) → Option (List (Nat × Str × Option Entry))
   | [], es => some es
   | l :: ls, es =>
-    if !l.needsmerge then mergeLinks ls (es ++ [(es.length, [], some l.e)])
+    if !l.needsmerge then
+      -- an entry needs a name to be listed
+      if l.e.name.isNone then mergeLinks ls es else mergeLinks ls (es ++ [(es.length, [], some l.e)])
     else
       -- dict lookup by original selector among directory entries (tag ≠ [] marks them)
       match (es.reverse.find? fun x => x.2.1 == l.e.selector && !x.2.1.isEmpty) with
       | some (i, _, _) =>
-        if l.e.type == some (lit "X") then
+        if l.hides then
           -- `if hidden in self.fileentries: remove(hidden)`: hiding what is already hidden does nothing
           mergeLinks ls (es.map fun x => if x.1 == i then (x.1, x.2.1, none) else x)
         else
           mergeLinks ls (es.map fun x =>
             if x.1 == i then (x.1, x.2.1, x.2.2.map fun old => mergeEntries old l.e) else x)
       | none =>
-        -- a hide block for a file that is not listed hides nothing and adds nothing
-        if l.e.type == some (lit "X") then mergeLinks ls es
+        -- a hide block for a file that is not listed hides nothing and adds nothing; nor does a block that names nothing
+        if l.hides || l.e.name.isNone then mergeLinks ls es
         else mergeLinks ls (es ++ [(es.length, [], some l.e)])
 
 /-- the whole `prepare()` for a directory whose members are `kids` (in `listdir` order) -/
